@@ -30,6 +30,7 @@ from typing import Any, Callable
 VERIF = os.path.dirname(os.path.dirname(os.path.abspath(__file__)))
 NPROC = int(os.environ.get("VERIF_NPROC", "16"))
 EXIT_HARNESS_ERROR = 2
+TWIN = bool(os.environ.get("VERIF_TWIN"))
 
 
 @dataclass
@@ -127,6 +128,9 @@ def _w_explore(args):
         if pre_f is not None:
             E.assume(pre_f)
         job.harness(E, ctx, aux)
+        if TWIN:
+            # reachability twin (DESIGN 6.2): the oracle position is replaced by `assert False`
+            ctx.fail_counts["twin:assert-false"] += 1
 
     def on_timeout(E):
         ctx.extra["path_timeouts"] += 1
@@ -300,6 +304,12 @@ def run_property(pid: str, tier: str) -> int:
                 f"solver_time={jstats['solver_time_s']:.1f}s wall={time.time()-tj:.1f}s",
                 flush=True,
             )
+
+    if TWIN:
+        n = fail_counts.get("twin:assert-false", 0)
+        print(f"[{pid}/{tier}] REACHABILITY TWIN: the assert-false twin was violated on {n} of {total['paths']} paths "
+              f"({'ok, the harness reaches its oracle' if n else 'VACUOUS HARNESS'})")
+        return 0 if n else EXIT_HARNESS_ERROR
 
     # ---- triage of failures: replay, findings ---------------------------
     findings = load_findings()
